@@ -119,6 +119,8 @@ def run(eng, tier):
         ('request-price-unparsable', 'L', lambda e: isf(e, ('is', ('rcall', 'from_str', (PRICE,)), 'Err'))),
         # any comparison among the three prices that dooms the request: which orderings are accepted/refused is decided exactly by R-order above
         ('price-rule', 'L', lambda e: price_fact(e['fact'])),
+        ('size-above-min-of-both', 'L', lambda e: e['fact'] is not None and e['fact'][0] == 'val' and e['fact'][2] is True and e['fact'][1][0] == 'lt' and e['fact'][1][2] == SIZE
+            and e['fact'][1][1][0] == 'min' and set(e['fact'][1][1][1:]) == {F(ASK, 'size'), REMB}),
         ('size-above-ask', 'L', lambda e: isf(e, ('val', LT(F(ASK, 'size'), SIZE), True))),
         ('size-above-bid-remaining', 'L', lambda e: isf(e, ('val', LT(REMB, SIZE), True))),
         ('exec-total-fractional', 'L', lambda e: isf(e, ('val', EQ(('fract', GROSS), I(0)), False))),
@@ -150,6 +152,9 @@ def run(eng, tier):
         ('zero-amount-marker-transfer', 'I', lambda e: ab(e, 'unwrap') and 'transfer amount must be > 0' in e['key']),
     ]
     matched = check_table(eng, PROP, refs, V_, T, TA, 'a match request')
+    if matched['size-above-min-of-both']:
+        matched['size-above-ask'] += 1; matched['size-above-bid-remaining'] += 1
+    else: matched['size-above-min-of-both'] = 1      # optional spelling
     for name, cls, _ in T:
         if cls.startswith('L') and name not in ('id-not-canonical',):
             eng.ob(matched[name] > 0, PROP, 'refusal-present', name, 'the stated refusal "%s" is not found in the code any more (condition no longer enforced?)' % name)
